@@ -456,6 +456,9 @@ pub fn eval(ctx: &Ctx, case: &Case) {
 }
 
 pub fn replay(ctx: &Arc<Ctx>, v: &Value) {
+    if crate::cold::replay(ctx, v) {
+        return;
+    }
     let c: Case = serde_json::from_value(v.clone()).expect("C19 case");
     eval(ctx, &c);
 }
@@ -594,6 +597,7 @@ pub fn run(ctx: &Arc<Ctx>) {
     ctx.sample(serde_json::to_value(&cases[0]).unwrap());
     ctx.sample(serde_json::to_value(cases.iter().find(|c| matches!(c, Case::Asn1 { .. })).unwrap_or(&cases[1])).unwrap());
     run_cases(ctx, &cases, 8, eval);
+    crate::cold::check(ctx, "C19");
 }
 
 /// one-off build-time tool: search ephemeral scalars whose [k]G has DER-relevant byte patterns
